@@ -2,7 +2,7 @@
 (***************************************************************************)
 (* Route selection (pure).  Property C08.                                  *)
 (*                                                                         *)
-(* Vocabulary.  Addresses are small naturals of AddrBits bits (the harness *)
+(* Vocabulary.  Addresses are naturals of AddrBits bits (the harness      *)
 (* embeds them into IPv4).  A route is a record                            *)
 (*     [net, plen, hop, metric]                                            *)
 (* "packets whose first `plen' address bits equal those of `net' go to     *)
@@ -19,7 +19,8 @@
 (***************************************************************************)
 EXTENDS Naturals, Sequences, FiniteSets
 
-AddrBits == 8
+CONSTANT AddrBits   \* width of an address (8 in the exhaustive models, 30 for recorded real networks)
+
 NoHop == 0          \* "no default route" / "no next hop"
 Default == 0        \* the choice "use the default route" (indices of table routes are 1..Len)
 
